@@ -165,6 +165,8 @@ def stepCase (o : Obs) (a : Acc) (ev : String) : Option Acc :=
     pure { a with fails := (t, !(lookup a.fails false t)) :: a.fails }
   | "w" :: _ => some a
   | "d" :: _ => some a
+  -- a side effect of a command (harness only): what it changes reaches the model through the inputs every task SAW (INP)
+  | "x" :: _ => some a
   | ["r", _, force, _] => do
     let force := force == "1"
     let inp ← o.inp[a.k]?
